@@ -111,10 +111,16 @@ Definition global_env (b : bag) (le : lazeenv) (builder : nat) (bctx : context) 
    private to builder and app *)
 Definition object_ext (shareable : bool) (h : N) (rout : str) : str :=
   if shareable then show_dec h ++ ch_dot :: rout else rout.
+(* out.strip_prefix("/"): an absolute source path is made relative, so that pushing it keeps the
+   object directory and the builder/app directories of non-shareable objects (fix for absolute
+   srcdir; the code before pushed the absolute path, which replaces everything pushed so far) *)
+Definition rel_root (p : str) : str :=
+  if is_absolute p then match strip_prefix p [ch_slash] with Some r => r | None => p end else p.
+
 Definition object_path (objdir builder_name binary_name : str) (shareable : bool) (srcpath : str)
            (h : N) (rout : str) : str :=
   path_push (if shareable then objdir else path_push (path_push objdir builder_name) binary_name)
-            (with_extension srcpath (object_ext shareable h rout)).
+            (rel_root (with_extension srcpath (object_ext shareable h rout))).
 
 Section Gen.
   Variable H : list ascii -> N.              (* DefaultHasher *)
